@@ -111,7 +111,7 @@ class Gen:
         if name == 'TransactionOutput':
             return self.output()
         if name == 'Value':
-            return Value(self.integer(), self.multiasset())
+            return Value(self.integer(), self.multiasset() if r.random() < 0.7 else MultiAsset())
         if name == 'MultiAsset':
             return self.multiasset(negative=r.random() < 0.3)
         if name == 'Asset':
@@ -134,7 +134,10 @@ class Gen:
         if name == 'GovActionId':
             return GovActionId(TransactionId(self.b(32)), r.choice([0, 1, 255, 256, 65535]))
         if name == 'VerificationKeyWitness':
-            return VerificationKeyWitness(VerificationKey(self.b(32)), self.b(64))
+            kcls = r.choice([VerificationKey, VerificationKey, PaymentVerificationKey, StakeVerificationKey])
+            if kcls is not VerificationKey:
+                self.flags.append('typed_vkey')     # the role of a key is not on the wire (known finding C01 witness-key-retyped)
+            return VerificationKeyWitness(kcls(self.b(32)), self.b(64))
         if name == 'PoolRegistration':
             return PoolRegistration(self.make(PoolParams))
         if name == 'SingleHostAddr':
